@@ -86,6 +86,24 @@ func lockGuardSuffix() string {
 			}
 			scr.Fini()
 		}
+		if s == "+lg" {
+			// second probe: "+lw" when, in addition, the width drawCell returns for a wide rune left of a locked cell does
+			// not depend on the cell being dirty (fixes/C13-locked-wide-walk.patch): an idle Show after the witness
+			// history of finding C13-locked-wide-walk writes no cell
+			tty := NewFakeTty(5, 1)
+			if scr, err := tcell.NewTerminfoScreenFromTtyTerminfo(tty, ti); err == nil && scr.Init() == nil {
+				scr.SetContent(1, 0, 0x754c, nil, tcell.StyleDefault)
+				scr.LockRegion(1, 0, 1, 1, true)
+				scr.SetContent(0, 0, 0x4e16, nil, tcell.StyleDefault)
+				scr.Show()
+				tty.TakeWrites()
+				scr.Show()
+				if out := string(joinBlocks(tty.TakeWrites())); !strings.Contains(out, " ") {
+					s = "+lw"
+				}
+				scr.Fini()
+			}
+		}
 	}
 	lockGuardVariant = &s
 	return s
@@ -97,6 +115,8 @@ func splitLockGuard(tok string) (name string, stale bool) {
 	name, flag := tok, ""
 	if i := strings.Index(name, "+lg"); i >= 0 {
 		name, flag = name[:i]+name[i+3:], "+lg"
+	} else if i := strings.Index(name, "+lw"); i >= 0 {
+		name, flag = name[:i]+name[i+3:], "+lw"
 	}
 	if i := strings.Index(name, "+fz"); i >= 0 { // Fill variant, see fillZWSuffix in cb.go
 		name, flag = name[:i]+name[i+3:], flag+"+fz"
@@ -586,6 +606,12 @@ func execDraw(line string) (res h.Result) {
 						} else {
 							delete(sh.locked, [2]int{k, j})
 							sh.changed[[2]int{k, j}] = true
+							// an unlocked cell that holds a wide rune is repainted two columns wide: its right half is
+							// necessarily written again (the oracle used to flag that column: a false alarm of the
+							// machinery, found with the directed cases of genDrawLockedWide)
+							if widthOf(get(k, j).main) > 1 {
+								sh.changed[[2]int{k + 1, j}] = true
+							}
 							// an unlocked cell that is the right half of a wide rune is repainted through that rune
 							if k > 0 && widthOf(get(k-1, j).main) > 1 {
 								sh.changed[[2]int{k - 1, j}] = true
@@ -923,8 +949,32 @@ func genDrawMatrix(g *h.Gen) {
 	}
 }
 
+// genDrawLockedWide: directed histories for the locked clause of C13 — a wide rune left of a locked cell that itself holds
+// a wide rune (or a narrow one), followed by idle Shows, an unlock and more Shows.  The loop of draw() skips by the width
+// drawCell returns; these cases make that width differ between the Show that paints the left rune and the idle ones.
+func genDrawLockedWide(g *h.Gen) {
+	for _, name := range []string{"xterm-256color", "linux", "sun-color"} {
+		for _, inner := range []int{30028, 98} { // what the locked cell holds: wide / narrow
+			for _, x := range []int{0, 1} {
+				ops := []string{
+					fmt.Sprintf("S %d 0 %d - 0,0,0,0,0,-,-", x+1, inner),
+					fmt.Sprintf("S %d 0 97 - 0,0,0,0,0,-,-", x+3),
+					"W",
+					fmt.Sprintf("L %d 0 1 1 1", x+1),
+					fmt.Sprintf("S %d 0 19990 - 0,0,0,0,0,-,-", x),
+					"W", "W", "W",
+					fmt.Sprintf("L %d 0 1 1 0", x+1),
+					"W", "W",
+				}
+				g.Emit("draw %s%s 1 6 2 %s", name, lockGuardSuffix(), strings.Join(ops, "; "))
+			}
+		}
+	}
+}
+
 func genDraw(g *h.Gen) {
 	genDrawMatrix(g)
+	genDrawLockedWide(g)
 	r := g.R
 	ents := ecmaEntries()
 	n := g.N(1200, 40000)
